@@ -225,9 +225,8 @@ pub fn triggers(q: &Query) -> Vec<&'static str> {
             let n = ts.len();
             ts.sort();
             ts.dedup();
-            if ts.len() < n {
-                v.push("self_join_where");
-            }
+            // (trigger self_join_where retired: repaired in /repo, 2dfbe02d)
+            let _ = (ts.len(), n);
         }
         if let Some(h) = &s.having {
             pred_trig(h, v);
@@ -246,10 +245,7 @@ pub fn triggers(q: &Query) -> Vec<&'static str> {
         }
     }
     walk(&q.body, &mut v);
-    let ordered = !q.order_by.is_empty() || q.limit.is_some() || q.offset.is_some();
-    if ordered && q.body.is_setop() {
-        v.push("setop_order_limit");
-    }
+    // (trigger setop_order_limit retired: repaired in /repo, c0c70299)
     v.sort();
     v.dedup();
     v
